@@ -449,9 +449,9 @@ def idxOnRemove (idx : List (Nat × Rel)) (props : Storage) (n key : Nat) : List
   | some r => aset idx key (dropOld r n (props.get n key))
   | none => idx
 
-/-- `set_node_property` (no liveness check in the source) -/
+/-- `set_node_property`: nothing is written for an id that is not a live node -/
 def Store.setProp (s : Store) (n key : Nat) (v : V) : Store :=
-  { s with idx := s.idxOnSet n key v, props := s.props.set n key v }
+  if n ∈ s.live then { s with idx := s.idxOnSet n key v, props := s.props.set n key v } else s
 
 /-- `remove_node_property` -/
 def Store.removeProp (s : Store) (n key : Nat) : Store :=
